@@ -102,7 +102,7 @@ def main():
                 print(name, report[name], flush=True)
                 continue
             open(f, "w").write(s.replace(old, new))
-            t = sh("/tmp/run_stable_tests.sh %s" % SCRATCH)
+            t = sh("/verif/driver/run_stable_tests.sh %s" % SCRATCH)
             if t.returncode != 0:
                 report[name] = "existing tests fail or no build: " + t.stdout[-300:].replace("\n", " | ")
                 print(name, report[name], flush=True)
